@@ -357,6 +357,105 @@ func init() {
 		return Iface{}
 	})
 	reg("os.Remove", intrinsics["os.RemoveAll"])
+	// reading files back: the content of a modelled file is the list of values written to it, so a copy keeps
+	// both the bytes and their dependence on secrets
+	reg("os.Open", func(p *Path, fn *ssa.Function, a []Value) Value {
+		path := strArg(p, a[0])
+		f, ok := p.files()[path]
+		if !ok || !f.exists {
+			return Tuple{(*Value)(nil), p.enoent()}
+		}
+		return Tuple{osFile(p, fn, path), Iface{}}
+	})
+	fileBytes := func(p *Path, f *fileState) Value {
+		var out []Value
+		for _, w := range f.writes {
+			switch x := w.(type) {
+			case Slice:
+				out = append(out, x.A...)
+			case Str:
+				for _, b := range x.Bytes() {
+					out = append(out, b)
+				}
+			default:
+				p.unsupported("file content of type %T", w)
+			}
+		}
+		return Slice{A: out}
+	}
+	reg("os.ReadFile", func(p *Path, fn *ssa.Function, a []Value) Value {
+		path := strArg(p, a[0])
+		f, ok := p.files()[path]
+		if !ok || !f.exists {
+			return Tuple{Slice{}, p.enoent()}
+		}
+		if len(f.writes) == 1 {
+			if sl, ok := f.writes[0].(Slice); ok {
+				return Tuple{sl, Iface{}}
+			}
+		}
+		return Tuple{fileBytes(p, f), Iface{}}
+	})
+	reg("io.ReadAll", func(p *Path, fn *ssa.Function, a []Value) Value {
+		r := a[0].(Iface)
+		ptr, ok := r.V.(*Value)
+		if !ok || ptr == nil {
+			p.unsupported("io.ReadAll of %v", r.T)
+		}
+		nat, ok := (*ptr).(*Native)
+		if !ok || nat.Kind != "os:file" {
+			p.unsupported("io.ReadAll of %v", r.T)
+		}
+		f := nat.Data.(*fileState)
+		if len(f.writes) == 1 {
+			if sl, ok := f.writes[0].(Slice); ok {
+				return Tuple{sl, Iface{}}
+			}
+		}
+		return Tuple{fileBytes(p, f), Iface{}}
+	})
+	reg("io.Copy", func(p *Path, fn *ssa.Function, a []Value) Value {
+		modelled := func(v Value) *fileState {
+			i, ok := v.(Iface)
+			if !ok {
+				return nil
+			}
+			ptr, ok := i.V.(*Value)
+			if !ok || ptr == nil {
+				return nil
+			}
+			nat, ok := (*ptr).(*Native)
+			if !ok || nat.Kind != "os:file" {
+				return nil
+			}
+			return nat.Data.(*fileState)
+		}
+		dst, src := modelled(a[0]), modelled(a[1])
+		if dst == nil || src == nil {
+			p.unsupported("io.Copy between values that are not modelled files")
+		}
+		n := 0
+		for _, w := range append([]Value(nil), src.writes...) {
+			p.crashPoint("write:" + dst.path)
+			p.fileWrite(dst, w)
+			n += deepSize(w, 0)
+		}
+		return Tuple{BVC(uint64(n), 64), Iface{}}
+	})
+	reg("os.Rename", func(p *Path, fn *ssa.Function, a []Value) Value {
+		from, to := strArg(p, a[0]), strArg(p, a[1])
+		f, ok := p.files()[from]
+		if !ok || !f.exists {
+			return p.enoent()
+		}
+		p.crashPoint("rename:" + to)
+		m := p.files()
+		nf := *f
+		nf.path = to
+		m[to] = &nf
+		f.exists, f.writes = false, nil
+		return Iface{}
+	})
 	z("FileMode", func(p *Path, fn *ssa.Function, a []Value) Value {
 		path := strArg(p, a[0])
 		if f, ok := p.files()[path]; ok && f.exists {
